@@ -1,8 +1,8 @@
 ------------------------------- MODULE LexDate -------------------------------
 (* C14 case generation: local times [y, mo, d, h, mi, s, off] (off = minutes east *)
 (* of UT) to be written by the real DateString and parsed back strictly.          *)
-(*   Years x DayClasses x Offs x time of day {seeded hash, and for EdgeTods also  *)
-(*   00:00:00 and 23:59:59};  FullYears: every day of the year x FullOffs;        *)
+(*   Years x DayClasses x Offs x time of day {seeded hash, and for EdgeTods (and   *)
+(*   always for the years 0, 2024, 9999) also 00:00:00 and 23:59:59};  FullYears: every day of the year x FullOffs;        *)
 (*   AllOffs: every whole-minute offset in -1439..1439 for one date.              *)
 EXTENDS Lex, TLC, Json
 CONSTANTS YearLo, YearHi, ExtraYears, FullYears, AllOffs, EdgeTods, Seed
@@ -16,7 +16,7 @@ AllDays(y) == {<<m, d>> : m \in 1..12, d \in 1..31} \cap {md \in (1..12) \X (1..
 
 Hash(y, md, o) == (y * 7919 + (md[1] * 100 + md[2]) * 104729 + (o + 1440) * 613 + (Seed % 10007) * 8191) % 86400
 Mk(y, md, o, t) == [y |-> y, mo |-> md[1], d |-> md[2], h |-> t \div 3600, mi |-> (t \div 60) % 60, s |-> t % 60, off |-> o]
-Tods(y, md, o) == {Hash(y, md, o)} \cup (IF EdgeTods THEN {0, 86399} ELSE {})
+Tods(y, md, o) == {Hash(y, md, o)} \cup (IF EdgeTods \/ y \in {0, 2024, 9999} THEN {0, 86399} ELSE {})
 
 Init == \/ \E y \in Years : \E md \in DayClasses(y) : \E o \in Offs : \E t \in Tods(y, md, o) : c = Mk(y, md, o, t)
         \/ \E y \in FullYears : \E md \in AllDays(y) : \E o \in FullOffs : c = Mk(y, md, o, Hash(y, md, o))
